@@ -212,6 +212,9 @@ func (in *Interp) mapFind(m *Map, k Value) int {
 	if m.lazy != nil {
 		in.lazyMapLookup(m, k)
 	}
+	if len(in.guardMaps) > 0 {
+		in.checkGuardMap(m, false)
+	}
 	if m.allConc && isConcrete(k) {
 		if i, ok := m.index[hashKey(k)]; ok {
 			return i
@@ -245,6 +248,9 @@ func (in *Interp) mapInsert(m *Map, k, v Value) {
 		}
 	}
 	if i := in.mapFind(m, k); i >= 0 {
+		if len(in.guardMaps) > 0 {
+			in.checkGuardMap(m, true)
+		}
 		m.entries[i].v = v
 		return
 	}
@@ -252,6 +258,9 @@ func (in *Interp) mapInsert(m *Map, k, v Value) {
 }
 
 func (in *Interp) mapInsertRaw(m *Map, k, v Value) {
+	if len(in.guardMaps) > 0 {
+		in.checkGuardMap(m, true)
+	}
 	k = copyVal(k)
 	m.entries = append(m.entries, mapEntry{k: k, v: v})
 	m.live++
@@ -272,6 +281,9 @@ func (in *Interp) mapDelete(m *Map, k Value) {
 		if ks, ok := k.(string); ok {
 			m.lazy.decided[ks] = true
 		}
+	}
+	if len(in.guardMaps) > 0 {
+		in.checkGuardMap(m, true)
 	}
 	if i := in.mapFind(m, k); i >= 0 {
 		if m.allConc {
@@ -307,6 +319,9 @@ func (in *Interp) rangeIter(x Value) Value {
 	case *Map:
 		if x != nil && x.lazy != nil {
 			panic(unsupported{"range over a lazy (arbitrary) map"})
+		}
+		if x != nil && len(in.guardMaps) > 0 {
+			in.checkGuardMap(x, false)
 		}
 		return &mapIter{m: x}
 	case string, *SymStr:
